@@ -23,6 +23,7 @@ import (
 	"google.golang.org/protobuf/internal/set"
 	testpb "google.golang.org/protobuf/internal/testprotos/test"
 	test3pb "google.golang.org/protobuf/internal/testprotos/test3"
+	textpb2 "google.golang.org/protobuf/internal/testprotos/textpb2"
 	"google.golang.org/protobuf/internal/verifh/core"
 	"google.golang.org/protobuf/proto"
 	"google.golang.org/protobuf/reflect/protodesc"
@@ -548,6 +549,10 @@ func newTarget(t string) proto.Message {
 		return &anypb.Any{}
 	case "R":
 		return &testpb.TestReservedFields{}
+	case "K":
+		return &textpb2.KnownTypes{}
+	case "G":
+		return &textpb2.Nests{}
 	}
 	panic("harness: unknown target type " + t)
 }
